@@ -28,6 +28,15 @@ OptSpace == [model : ModelsO, canon : BOOLEAN, re : BOOLEAN, de : BOOLEAN, ra : 
              reconf : Reconf, rearr : Rearr, mk : MkVars, indent : Indents, compact : BOOLEAN,
              triples : BOOLEAN, check : BOOLEAN]
 
+\* option sets that differ from "no option at all" in at most two fields, over the full value space: every option value alone and
+\* every pair of option values (replayed completely in the quick tier, whatever the sample of the product space contains)
+DefaultOpt == [model |-> "default", canon |-> FALSE, re |-> FALSE, de |-> FALSE, ra |-> FALSE, ib |-> FALSE, reconf |-> "", rearr |-> "",
+               mk |-> "", indent |-> "", compact |-> FALSE, triples |-> FALSE, check |-> FALSE]
+ValsOf(f) == CASE f = "model" -> ModelsO [] f = "reconf" -> Reconf [] f = "rearr" -> Rearr [] f = "mk" -> MkVars [] f = "indent" -> Indents
+               [] OTHER -> BOOLEAN
+NearDefault == UNION {{[DefaultOpt EXCEPT ![fs[1]] = v1, ![fs[2]] = v2] : v1 \in ValsOf(fs[1]), v2 \in ValsOf(fs[2])} :
+                      fs \in (DOMAIN DefaultOpt) \X (DOMAIN DefaultOpt)}
+
 Opt(b, flag) == IF b THEN <<flag>> ELSE <<>>
 OptV(v, flag) == IF v = "" THEN <<>> ELSE <<flag, v>>
 ModelArgs(o) == CASE o.model = "default" -> <<>> [] o.model = "file" -> <<"--model", "@MODELFILE@">> [] OTHER -> <<"--" \o o.model>>
